@@ -609,6 +609,67 @@ def hooked_check(ctx):
     return len(second), nbad, nlag
 
 
+def hooked_pairs_check(ctx):
+    """two requests that update the same thing: the first stands still before each of its store actions while the second is sent
+    (it runs to its end, or waits for a lock the first one holds and finishes afterwards); what can be read when both are done is
+    what one of the two sequential orders leaves"""
+    rng = ctx.rng
+    binp = api_binary(ctx)
+    cases, meta = [], {}
+    rounds = 1 if ctx.tier == "quick" else 5
+    for rnd in range(rounds):
+        for store in ("mem", "dir"):
+            repo = rng.choice(["a", "b/c"])
+            cfg = b"{}"
+            base = image_manifest(desc(MT_CFG, cfg), [], annotations={"hp": "base-%d" % rnd})
+            sd = {"mediaType": MT_OCI_M, "digest": dg("sha256", base), "size": len(base)}
+            arts = [image_manifest(desc(MT_EMPTY, cfg), [], subject=sd, artifact_type="application/vnd.example.t%d" % j, annotations={"hp": "%d-%d" % (j, rnd)}) for j in range(3)]
+            other = image_manifest(desc(MT_CFG, cfg), [], annotations={"hp": "other-%d" % rnd})
+            pre = [upload_post(repo, digest=dg("sha256", cfg), body=cfg), manifest_put(repo, "base", base, ctype=MT_OCI_M),
+                   manifest_put(repo, dg("sha256", arts[0]), arts[0], ctype=MT_OCI_M), manifest_put(repo, "other", other, ctype=MT_OCI_M)]
+            reads = [referrers(repo, dg("sha256", base), None), tag_list(repo), manifest_get(repo, "base"), manifest_get(repo, "moved"), manifest_get(repo, "other")] + \
+                    [manifest_get(repo, dg("sha256", a)) for a in arts]
+            pairs = [("delete-artifact/push-artifact", manifest_delete(repo, dg("sha256", arts[0])), manifest_put(repo, dg("sha256", arts[1]), arts[1], ctype=MT_OCI_M)),
+                     ("push-artifact/push-artifact", manifest_put(repo, dg("sha256", arts[1]), arts[1], ctype=MT_OCI_M), manifest_put(repo, dg("sha256", arts[2]), arts[2], ctype=MT_OCI_M)),
+                     ("push-artifact/delete-artifact", manifest_put(repo, dg("sha256", arts[1]), arts[1], ctype=MT_OCI_M), manifest_delete(repo, dg("sha256", arts[0]))),
+                     ("move-tag/move-tag", manifest_put(repo, "moved", base, ctype=MT_OCI_M), manifest_put(repo, "moved", other, ctype=MT_OCI_M)),
+                     ("delete-tag/push-tag", manifest_delete(repo, "other"), manifest_put(repo, "moved", other, ctype=MT_OCI_M))]
+            for name, r1, r2 in pairs:
+                def mk(steps):
+                    steps = [dict(x) for x in steps]
+                    for st in steps:
+                        st["model"] = "(skip)"
+                    cid = 990000 + len(cases)
+                    cases.append(dict(id=cid, conf=mkconf(store=store, withsubj=False), steps=steps))
+                    return cid
+                ref12 = mk(pre + [r1, r2] + [dict(x, phase="post") for x in reads])
+                ref21 = mk(pre + [r2, r1] + [dict(x, phase="post") for x in reads])
+                for at in range(1, 15):
+                    mids = [dict(kind="async", impl=dict(op="async", par=[[r2["impl"]]]), model="(skip)"), special("sleep", secs=0.1)]
+                    hk = dict(r1, kind="hooked", model="(skip)", impl=dict(r1["impl"], op="hooked", n=at, mid=[x["impl"] for x in mids]))
+                    cid = mk(pre + [hk, dict(kind="join", impl=dict(op="join", secs=5.0), model="(skip)")] + [dict(x, phase="post") for x in reads])
+                    meta[cid] = (store, name, at, ref12, ref21, reads)
+    iouts = run_api(ctx, binp, cases, name="pairs")
+    byid = {c["id"]: c for c in cases}
+    post = lambda cid: [_ans(st, r) for st, r in zip(byid[cid]["steps"], iouts[cid]["steps"]) if st.get("phase") == "post"]
+    n = nbad = 0
+    for cid, (store, name, at, ref12, ref21, reads) in sorted(meta.items()):
+        io = iouts[cid]["steps"]
+        hk = [r for st, r in zip(byid[cid]["steps"], io) if st["kind"] == "hooked"][0]
+        acts = hk.get("names") or []
+        if at > len(acts):
+            continue
+        n += 1
+        got, a12, a21 = post(cid), post(ref12), post(ref21)
+        if got != a12 and got != a21:
+            nbad += 1
+            diff = [(reads[k]["impl"]["path"], got[k], a12[k], a21[k]) for k in range(len(reads)) if got[k] != a12[k] or got[k] != a21[k]]
+            ctx.violation("%s on the %s store, the first request standing before its store action %d (%s) while the second is sent: when both are done %s"
+                          % (name, store, at, acts[at - 1], "; ".join("%s answers %s (first-then-second %s, second-then-first %s)" % d for d in diff)[:700]),
+                          dict(case=replayable(byid[cid]), scenario=name, before_action=acts[at - 1], actions=acts), "C11:pair-%s" % name.replace("/", "-vs-"))
+    return n, nbad
+
+
 def pull_vs_collection_check(ctx):
     """a pull by tag standing before each of its store actions while the tag is moved to another manifest and a collection (untagged
     manifests are garbage, no grace period) is started: the pull answers with the old or the new manifest, never 404 - the
@@ -670,6 +731,7 @@ def run(ctx):
         res["children"] = children_check(ctx)
         res["hooked"] = hooked_check(ctx)
         res["pullgc"] = pull_vs_collection_check(ctx)
+        res["pairs"] = hooked_pairs_check(ctx)
         bodies = set()
         for c in cases:
             bodies |= set(c["contents"])
@@ -687,5 +749,6 @@ def run(ctx):
         ctx.coverage["referrers_mutex_schedules"], ctx.coverage["referrers_lag_observed"] = res.get("lag", (0, 0))
         ctx.coverage["paged_listings_across_a_delete"], ctx.coverage["paged_listings_incomplete"] = res.get("paged", (0, 0))
         ctx.coverage["children_pulled_during_index_updates"], ctx.coverage["children_reads_torn"] = res.get("children", (0, 0))
+        ctx.coverage["request_pairs_with_one_paused_at_each_store_action"], ctx.coverage["pairs_not_serializable"] = res.get("pairs", (0, 0))
         ctx.coverage["pulls_paused_during_tag_move_and_collection"], ctx.coverage["pulls_lost"] = res.get("pullgc", (0, 0))
         ctx.coverage["requests_paused_before_each_store_action"], ctx.coverage["intermediate_states_observed"], ctx.coverage["referrers_lag_states_observed"] = res.get("hooked", (0, 0, 0))
